@@ -29,7 +29,8 @@ ID = "C08"
 LEVEL = "exploration"
 RULE = ("generated histories of 2-14 operations: request(kind) for every request kind with a defined reply entity (ping, last seen, "
         "picture get, statuses get, status set, privacy get, group create/leave/info/list/participants/add/remove/subject/promote/"
-        "demote, contact sync, media upload) issued through YowInterfaceLayer._sendIq with recording callbacks; reply(i, result|error) "
+        "demote, contact sync, media upload) issued through YowInterfaceLayer._sendIq with recording callbacks (the media upload also through "
+        "the interface layer's own _sendMediaMessage with a result naming an existing copy or an error reply, each delivered twice); reply(i, result|error) "
         "to any issued request in any order with a result stanza of the kind's catalogued shape (in about a fifth of the requests the reply "
         "is processed while the sender is still inside the send call, as a reader thread can do); replay(i); reply with an unknown id; "
         "non-reply stanza (receipt / ack / notification) carrying the id of request i; server iq type=get with a fresh id or with the "
@@ -101,7 +102,84 @@ def snapshot(rig, n_top, n_bottom):
     return ([describe_entity(e) for e in rig.top.got[n_top:]], [T.from_node(s) for s in rig.bottom.sent[n_bottom:]])
 
 
+class _MediaBuilder(object):
+    """what an application hands to YowInterfaceLayer._sendMediaMessage: media type, file, recipient, and build(url, ip)"""
+
+    def __init__(self, media_type, path, jid):
+        self.mediaType = media_type
+        self.jid = jid
+        self._path = path
+
+    def getFilepath(self):
+        return self._path
+
+    def isEncrypted(self):
+        return False
+
+    def build(self, url, ip=None):
+        return ("built", url, ip)
+
+
+def run_media_case(case):
+    """the interface layer's own media request: _sendMediaMessage(builder, success, error) sends the upload request; a result
+    that names an existing copy (<duplicate>) reaches success with the built message, an error reply reaches error - once"""
+    import os
+    import tempfile
+    out = Outcome()
+    axolotl = bool(case.get("axolotl"))
+    out.label("media_request:" + case["mode"], "axolotl" if axolotl else "plain")
+    out.info = {"nt": True}
+    fd, path = tempfile.mkstemp(prefix="c08_media_")
+    os.write(fd, bytes.fromhex(case["content"]))
+    os.close(fd)
+    rig = ProtoRig([True, True, True, True], axolotl, top_cls=App)
+    try:
+        app = rig.top
+        calls = []
+        b = _MediaBuilder(case["mediatype"], path, "4915100000022@s.whatsapp.net")
+        try:
+            app._sendMediaMessage(b, lambda built: calls.append(("success", built)),
+                                  lambda code, text, backoff: calls.append(("error", code, text, backoff)))
+        except Exception as e:
+            out.fail("request", "media_request:raises:%s" % type(e).__name__, {"error": repr(e)[:300]})
+            return out
+        reqs = [n for n in rig.bottom.sent if n.tag == "iq" and n["xmlns"] == "w:m"]
+        if len(reqs) != 1:
+            out.fail("request", "media_request:not_transmitted_once", {"n": len(reqs)})
+            return out
+        rid = reqs[0]["id"]
+        if case["mode"] == "duplicate":
+            reply = ("iq", {"type": "result", "id": rid, "from": "s.whatsapp.net"},
+                     [("duplicate", {"url": case["url"], "ip": case.get("ip") or "1.2.3.4", "mimetype": "image/jpeg", "filehash": "h", "size": "1",
+                                     "type": case["mediatype"], "width": "1", "height": "1"}, None)])
+            expected = [("success", ("built", case["url"], case.get("ip") or "1.2.3.4"))]
+        else:
+            reply = ("iq", {"type": "error", "id": rid, "from": "s.whatsapp.net"},
+                     [("error", {"code": case["code"], "text": case["text"]}, None)])
+            expected = None
+        for k in range(2):      # the reply, then the same reply again
+            try:
+                rig.inject(T.to_node(reply))
+            except Exception as e:
+                out.fail("callbacks", "media_request:%s:reply_raises:%s" % (case["mode"], type(e).__name__), {"error": repr(e)[:300], "delivery": k})
+                return out
+            if case["mode"] == "duplicate":
+                ok = calls == expected
+            else:
+                ok = len(calls) == 1 and calls[0][0] == "error" and str(calls[0][1]) == case["code"] and calls[0][2] == case["text"]
+            if not ok:
+                out.fail("callbacks", "media_request:%s:%s" % (case["mode"], "callback_missing" if not calls else "wrong_or_repeated_callback"),
+                         {"calls": [c[0] for c in calls], "delivery": k})
+                return out
+        return out
+    finally:
+        rig.close()
+        os.unlink(path)
+
+
 def run_case(case):
+    if case.get("sub") == "media":
+        return run_media_case(case)
     out = Outcome()
     axolotl = bool(case.get("axolotl"))
     rig = ProtoRig([True, True, True, True], axolotl, top_cls=App)
@@ -519,9 +597,18 @@ def internal_strategy():
     return st.lists(op, min_size=2, max_size=10).map(lambda ops: {"sub": "history", "axolotl": True, "ops": ops})
 
 
+def media_strategy():
+    return st.builds(lambda mode, mt, content, url, code, text, ax: {"sub": "media", "mode": mode, "mediatype": mt, "content": content.hex(), "url": url,
+                                                                    "code": code, "text": text, "axolotl": ax},
+                     st.sampled_from(["duplicate", "error"]), st.sampled_from(["image", "video", "audio", "document"]),
+                     st.binary(min_size=1, max_size=64), st.sampled_from(["https://mmg.whatsapp.net/d/f/abc.enc", "https://mms.example/u?x=1&y=2"]),
+                     st.sampled_from(["401", "404", "500"]), st.sampled_from(["not-authorized", "item-not-found", "internal-server-error"]),
+                     st.booleans())
+
+
 def plan(tier):
     quick = tier == "quick"
-    strategies = [("histories", script_strategy(), 40 if quick else 3000),
+    strategies = [("histories", script_strategy(), 40 if quick else 3000), ("media_requests", media_strategy(), 3 if quick else 100),
                   ("internal_requests", internal_strategy(), 12 if quick else 800)]
     for kind, res in KINDS:
         strategies.append(("kind:" + kind, single_kind_strategy(kind), 2 if quick else 40))
